@@ -12,6 +12,8 @@ from .c02 import exception_class
 from .core.effects import Effects
 
 RULES = {
+    "C01.10": "a topic's entries are not overwritten by its neighbour (= C06.1's record clause): every store to the limit of the allocator's own block record is DEFAULT_BLOCK_SIZE, "
+              "so a new topic's first block never claims more than the one unit reserved for it",
     "C01.9": "the single-entry reader accepts every entry the writer acknowledged (= C07.6): every comparison in Block::read - which read_next and the recovery scan use - is the "
              "header-length sanity test, `entry end > file length`, or the checksum comparison; a bound a valid entry can meet exactly (`>=` against the file length, the block's "
              "limit) makes read_next return None in front of an entry that ends with its block or file, and everything behind it is never delivered",
@@ -681,6 +683,8 @@ def run(ctx):
     check_cursor_pairs(ctx, facts)
     from .c07 import check_reader_rejections
     check_reader_rejections(ctx, facts, rid="C01.9")
+    from .c06 import check_cursor_limit
+    check_cursor_limit(ctx, facts, rid="C01.10")
     ctx.assume("NOT decided: ordering and once-only delivery across blocks, the planner/budget interaction (e.g. a budget that ends inside a sealed block while the tail holds entries), rotation arithmetic")
     return {
         "explanation": "four structural clauses on MIR: must-pass-through between the per-entry counter and the push into the returned vector (with offset-addressed-only edges derived "
